@@ -35,7 +35,7 @@ channel is the explicit hypothesis `ConnStream.ChanComplete` (to be discharged b
 import Ldap3V.Lemmas.StreamC10
 import Ldap3V.Lemmas.StreamPagedFinish
 import Ldap3V.Lemmas.GenPure
-import Ldap3V.Lemmas.ConnStreamView
+import Ldap3V.Lemmas.ConnStreamTrace
 namespace Ldap3V.Stream
 open Spec
 
@@ -436,6 +436,23 @@ theorem C10_conn_stream_items (D : ConnStream.Content) (N : Nat) (evs : List Con
       · assumption
       · split at hk <;> cases hk
     exact hu f hf h19
+
+/-- What the caller HAS received and what it WILL receive make up the channel, for every history:
+the items handed to the `.recv c _` events of the history (`ConnStream.recvTrace`, read off the
+observations step by step), followed by the script still to come, are the full script.  So the
+stream of `C10_conn_stream`, fed with `fullScript`, is the stream the caller has been reading all
+along, whatever the interleaving of its `next()` calls with the driver. -/
+theorem C10_conn_recv_trace (D : ConnStream.Content) (N : Nat) (evs : List Conn.Ev) (c : Nat) :
+    (ConnStream.recvTrace c (Conn.init N) evs).map (ConnStream.recvOf D) ++
+        ConnStream.scriptOf D (Conn.run (Conn.init N) evs) c =
+      ConnStream.fullScript D (Conn.run (Conn.init N) evs) c :=
+  ConnStream.trace_script D N evs c
+
+-- the caller polls between the driver's steps: one item received early, one late, the result still queued
+example : ConnStream.recvTrace 0 (Conn.init 100)
+      [.alloc .search, .enqueue 0 none, .drvOp true, .poll 0, .srvSend ⟨1, 4, 70, false⟩, .recv 0 none, .drvResp,
+       .recv 0 none, .srvSend ⟨1, 19, 71, false⟩, .srvSend ⟨1, 5, 72, true⟩, .drvResp, .drvResp, .recv 0 none] =
+    [.entry ⟨1, 4, 70, false⟩, .entry ⟨1, 19, 71, false⟩] := by decide
 
 -- non-vacuity of `C10_conn_stream` / `C10_conn_stream_items`: the hypotheses hold for the concrete
 -- history (the channel is complete, the search is complete), and the outputs are the three frames
